@@ -12,7 +12,6 @@ package c17
 import (
 	"bufio"
 	"encoding/json"
-	"fmt"
 	"os"
 	"sync"
 	"sync/atomic"
@@ -74,9 +73,6 @@ func CaptureLog() {
 		}
 	}()
 }
-
-// uniquePath returns a URL path no other request of this process uses.
-func uniquePath() string { return fmt.Sprintf("/some/path/r%d", pathSeq.Add(1)) }
 
 // logLines returns how many lines the global logger has written for path by now. Everything written
 // before the call is counted: a sentinel line is sent through the same logger (same pipe, FIFO) and
